@@ -26,6 +26,25 @@ import (
 func init() {
 	generators["C15"] = genC15
 	opExec["cons"] = execCons
+	opExec["loadtab"] = func(a []string) string {
+		if len(a) != 3 {
+			return "bad-op"
+		}
+		va := findVAsset(a[0])
+		if va == nil {
+			return "bad-op"
+		}
+		for i := range va.Reps {
+			if va.Reps[i].ID == a[1] {
+				var parts []string
+				for _, sg := range va.Reps[i].Segments {
+					parts = append(parts, fmt.Sprintf("%d:%d", sg.StartTime, sg.EndTime))
+				}
+				return strings.Join(parts, ",")
+			}
+		}
+		return "bad-op"
+	}
 }
 
 // cons <id:type:dur:ts:pre> ...
@@ -194,6 +213,46 @@ func findAsset(as []app.VerifAsset, name string) *app.VerifAsset {
 
 func genC15(c *Ctx) {
 	r := c.Rng
+	// ---- op loadtab: the loaded table of every $Number$ representation against what the files themselves say ----
+	getServer()
+	for ai := range vAssets {
+		a := &vAssets[ai]
+		for ri := range a.Reps {
+			rp := &a.Reps[ri]
+			if rp.ContentType == "image" || !strings.Contains(rp.MediaURI, "$Number$") || len(rp.Segments) == 0 {
+				continue
+			}
+			var raw []string
+			ok := true
+			for _, sg := range rp.Segments {
+				def := uint32(0)
+				if tx := vodFiles(a, rp).trex; tx != nil {
+					def = tx.DefaultSampleDuration
+				}
+				t, d, err := storedTimesDef(vodRoot()+"/"+a.AssetPath+"/"+mediaPath(rp, sg), def)
+				if err != nil {
+					ok = false
+					break
+				}
+				raw = append(raw, fmt.Sprintf("%d:%d", t, t+d))
+			}
+			if !ok {
+				c.Count("loadtab-unreadable")
+				continue
+			}
+			line := fmt.Sprintf("loadtab %s %s %s", a.AssetPath, rp.ID, strings.Join(raw, ","))
+			out := c.Emit(line, len(raw) > 1)
+			// the property on this table: contiguous
+			segs := strings.Split(out, ",")
+			for i := 1; i < len(segs); i++ {
+				p, q := strings.Split(segs[i-1], ":"), strings.Split(segs[i], ":")
+				if len(p) != 2 || len(q) != 2 || p[1] != q[0] {
+					c.Violate("table-not-contiguous", fmt.Sprintf("%s/%s: segment %d ends at %s, segment %d starts at %s", a.AssetPath, rp.ID, i-1, p[len(p)-1], i, q[0]), []string{line}, nil)
+					break
+				}
+			}
+		}
+	}
 	// ---- op cons ----
 	kinds := []string{"video", "audio", "text", "image"}
 	for i := 0; i < c.N(1500, 20000); i++ {
